@@ -215,6 +215,11 @@ struct Post {
     /// must still complete its lifecycle, so the oracle is unchanged.
     #[serde(default)]
     cancel: u8,
+    /// POST /sessions/{run session}/input on the session a thread post created: 0 never, 1 right
+    /// after the 202, 2 after the run ended. The run is the session's one run: the input must be
+    /// refused; if it is accepted the lifecycle oracle sees whatever the second run logs.
+    #[serde(default)]
+    extra_input: u8,
 }
 
 #[derive(Debug, Clone, Serialize, Deserialize, PartialEq)]
@@ -440,8 +445,18 @@ fn post_s() -> BoxedStrategy<Post> {
         1 => (proptest::option::of(any::<bool>()), any::<bool>(), proptest::option::of(any::<bool>()))
             .prop_map(|(stateless, model, parallel_tool_calls)| Some(Override { stateless, model, parallel_tool_calls })),
     ];
-    (input_s(), over, turns_s(), prop_oneof![6 => Just(0u8), 1 => Just(1u8), 1 => Just(2u8), 1 => Just(3u8)])
-        .prop_map(|(input, over, turns, cancel)| Post { input, over, turns, cancel })
+    (
+        input_s(),
+        over,
+        turns_s(),
+        prop_oneof![6 => Just(0u8), 1 => Just(1u8), 1 => Just(2u8), 1 => Just(3u8)],
+        prop_oneof![8 => Just(0u8), 1 => Just(1u8), 1 => Just(2u8)],
+    )
+        .prop_map(|(input, over, turns, cancel, extra_input)| {
+            // a cancelled handle is unregistered (404 for any input): keep the two apart
+            let extra_input = if cancel == 1 || cancel == 2 { 0 } else { extra_input };
+            Post { input, over, turns, cancel, extra_input }
+        })
         .boxed()
 }
 
@@ -936,6 +951,19 @@ async fn do_post(auth: &Authority, thread: &str, content: &str, over: Option<Val
 }
 
 /// Returns Err(why) when the case could not be brought to quiescence (inconclusive).
+/// A further input on the session of a thread run. Returns true when it was accepted.
+async fn extra_input(auth: &Authority, reliable: bool, sid: &str, when: u8, rep: &mut CaseReport) -> bool {
+    let s = auth.send_input(sid, "one more input on the run's session").await;
+    rep.class(format!("extra_input:{}:{}", if when == 1 { "right_after_202" } else { "after_run_ended" }, s.as_u16()));
+    if s == StatusCode::ACCEPTED {
+        // let the second run log what it logs before the log is read
+        let needle = format!("\"stream_id\":\"{sid}\"");
+        let _ = wait_quiet(reliable, QUIESCE, || log_has(auth, "session_ended", &needle, 2)).await;
+        return true;
+    }
+    false
+}
+
 async fn cancel_session(auth: &Authority, sid: &str, when: u8, rep: &mut CaseReport) {
     if when == 2 {
         tokio::time::sleep(Duration::from_millis(3)).await;
@@ -1133,7 +1161,15 @@ async fn drive(case: &Case, send_second_input: bool, rep: &mut CaseReport) -> Re
             }
         }
         for a in &accepted {
+            if case.posts[a.idx].extra_input == 1 {
+                extra_input(&auth, reliable, &a.session_id, 1, rep).await;
+            }
+        }
+        for a in &accepted {
             wait_run(&auth, reliable, &a.session_id, rep).await?;
+            if case.posts[a.idx].extra_input == 2 {
+                extra_input(&auth, reliable, &a.session_id, 2, rep).await;
+            }
             if case.posts[a.idx].cancel == 3 {
                 cancel_session(&auth, &a.session_id, 3, rep).await;
             }
@@ -1152,7 +1188,13 @@ async fn drive(case: &Case, send_second_input: bool, rep: &mut CaseReport) -> Re
                     if c == 1 || c == 2 {
                         cancel_session(&auth, &sid, c, rep).await;
                     }
+                    if case.posts[i].extra_input == 1 {
+                        extra_input(&auth, reliable, &sid, 1, rep).await;
+                    }
                     wait_run(&auth, reliable, &sid, rep).await?;
+                    if case.posts[i].extra_input == 2 {
+                        extra_input(&auth, reliable, &sid, 2, rep).await;
+                    }
                     if c == 3 {
                         cancel_session(&auth, &sid, 3, rep).await;
                     }
